@@ -211,7 +211,8 @@ def run(ctx, model):
     ctx.floor("R-CTX", len(public), 40, "public str|Pregex parameters")
     n_ctx = 0
     for f, pname, var in public:
-        for s in (WITNESSES[0], "a.b"):
+        lookaround = any(k in (f.short + (f.cls.name if f.cls else "")).lower() for k in ("preceded", "enclosed", "followed"))
+        for s in ((WITNESSES[0], "a.b", "\\*", "a\\+b\\?") if lookaround else (WITNESSES[0], "a.b")):
             E = escape_of(model, s)
             for position in ((0, 1, 2) if var else (0,)):
                 call_str = _caller(model, f, pname, var, position, s)
@@ -228,6 +229,12 @@ def run(ctx, model):
                 n_ctx += 1
                 inp = f"{f.short}({pname}{'[' + str(position) + ']' if var else ''}={s!r})"
                 ctx.instance("R-CTX", key=inp, sample=f"{inp}: {sorted(res_s)[:2]} ...")
+                refused = sorted(x for x in res_s if x in ("!NonFixedWidthPatternException", "!InvalidArgumentTypeException",
+                                                           "!InvalidArgumentValueException", "!EmptyNegativeAssertionException"))
+                if refused:
+                    ctx.violation("R-CTX", f.relpath, f.short, f"parameter {pname}: literal refused",
+                                  "a plain (non-empty) string operand is refused although a literal is always a valid, fixed-width pattern",
+                                  f.node.lineno, inp=inp, detail=f"{refused}")
                 bad = res_s - res_p
                 if bad:
                     raw = [x for x in bad if s in x and E not in x]
